@@ -25,6 +25,7 @@ import (
 
 	"github.com/AdguardTeam/AdGuardHome/internal/vfkit"
 	"github.com/AdguardTeam/dnsproxy/proxy"
+	"github.com/AdguardTeam/dnsproxy/upstream"
 	"github.com/miekg/dns"
 	"pgregory.net/rapid"
 )
@@ -61,6 +62,9 @@ type vfC03Lists struct {
 	BlockedHosts []string `json:"blocked_hosts"`
 	// hostRules keeps the structured form of BlockedHosts for the oracle.
 	hostRules []vfC03HostRule
+	// defaultsAdopted are the default blocked hosts the server has put in
+	// place of an empty list (as its API reports).
+	defaultsAdopted []string
 }
 
 // vfC03HostRule is a blocked-host pattern of the core grammar.
@@ -455,25 +459,31 @@ func TestVFC03Decision(t *testing.T) {
 		// The blocked-hosts list is the one the API reports: with none
 		// configured the server puts its defaults there, and they are names
 		// like any other.
-		rec := httptest.NewRecorder()
-		w.srv.handleAccessList(rec, httptest.NewRequest(http.MethodGet, "/control/access/list", nil))
-		var reported struct {
-			BlockedHosts []string `json:"blocked_hosts"`
-		}
-		if jerr := json.Unmarshal(rec.Body.Bytes(), &reported); jerr != nil {
-			t.Fatalf("VERIF-INCONCLUSIVE GET /control/access/list: %v: %s", jerr, rec.Body.String())
-		}
-		for _, h := range reported.BlockedHosts {
-			known := false
-			for _, have := range first.BlockedHosts {
-				known = known || strings.EqualFold(have, h)
+		adoptDefaults := func(l *vfC03Lists) {
+			rec := httptest.NewRecorder()
+			w.srv.handleAccessList(rec, httptest.NewRequest(http.MethodGet, "/control/access/list", nil))
+			var reported struct {
+				BlockedHosts []string `json:"blocked_hosts"`
 			}
-			if !known {
-				first.BlockedHosts = append(first.BlockedHosts, h)
-				first.hostRules = append(first.hostRules, vfC03HostRule{Kind: "exact", Domain: strings.ToLower(h)})
-				vfC03.Class("default_blocked_host_reported")
+			if jerr := json.Unmarshal(rec.Body.Bytes(), &reported); jerr != nil {
+				t.Fatalf("VERIF-INCONCLUSIVE GET /control/access/list: %v: %s", jerr, rec.Body.String())
+			}
+			for _, h := range reported.BlockedHosts {
+				known := false
+				for _, have := range l.BlockedHosts {
+					known = known || strings.EqualFold(have, h)
+				}
+				isDefault := vfStrIn(strings.ToLower(h), []string{"version.bind", "id.server", "hostname.bind"})
+				if !known && isDefault && len(l.BlockedHosts) == len(l.defaultsAdopted) {
+					// only an empty list is replaced by the defaults
+					l.BlockedHosts = append(l.BlockedHosts, h)
+					l.defaultsAdopted = append(l.defaultsAdopted, h)
+					l.hostRules = append(l.hostRules, vfC03HostRule{Kind: "exact", Domain: strings.ToLower(h)})
+					vfC03.Class("default_blocked_host_reported")
+				}
 			}
 		}
+		adoptDefaults(first)
 
 		// Phases: the lists installed by Prepare, then up to two replacements
 		// through POST /control/access/set while the server keeps serving.
@@ -497,6 +507,21 @@ func TestVFC03Decision(t *testing.T) {
 				if rec.Code == http.StatusOK {
 					cur = next
 					via = "http_set"
+					if rapid.IntRange(0, 2).Draw(t, fmt.Sprintf("l%d_then_reconfigure", ph)) == 0 {
+						// what a change of the general DNS settings that needs
+						// a restart of the server does: the lists set at run
+						// time stay in force
+						if rerr := w.srv.Reconfigure(nil); rerr != nil {
+							t.Fatalf("VERIF-INCONCLUSIVE reconfigure: %v", rerr)
+						}
+						w.srv.conf.UpstreamConfig.Upstreams = []upstream.Upstream{w.ups}
+						// an empty blocked-hosts list is filled with the
+						// defaults when the server is prepared again, and the
+						// API says so
+						adoptDefaults(cur)
+						via = "http_set+reconfigure"
+						vfC03.Class("lists_set_then_server_reconfigured")
+					}
 				} else {
 					// a rejected update must leave the old lists in force
 					via = "http_set_rejected"
